@@ -1,6 +1,6 @@
 (** C02 — bulk array operations equal their element-by-element, row-major definition. *)
 From Coq Require Import ZArith List Lia.
-From OW Require Import Arrays.IntOps Arrays.View Arrays.Ops Arrays.IndexProofs Arrays.AffineProofs
+From OW Require Import Arrays.WrapperViews Arrays.IntOps Arrays.View Arrays.Ops Arrays.IndexProofs Arrays.AffineProofs
   Arrays.ContigProofs Arrays.HelperProofs Arrays.MemProofs Arrays.ApplyProofs Arrays.ReshapeProofs
   Arrays.HistoryProofs Arrays.CopyProofs Arrays.BulkProofs.
 Import ListNotations.
@@ -135,6 +135,30 @@ Theorem C02_extremum_is_row_major_fold : forall (V : Type) better (h : @heap V) 
   exists x0, get h a (unravel (adims v) 0) = Some x0 /\
     extremum better h a = fold_elems better h a (adims v) 0 x0 (Z.to_nat (product (adims v))).
 Proof. exact (@extremum_is_row_major_fold). Qed.
+
+(** Slice(loc, d, step) followed by MustReshape(s) -- the pattern by which every generated
+    model wrapper addresses its inputs, states and outputs -- shares the storage, and its
+    element i is the parent's element loc + unravel(d, rank_s(i)) * step.  This discharges, for
+    Go-backed arrays, the interface assumption of the wrapper model (Wrapper/Views.v). *)
+Theorem C02_slice_reshape_denotes : forall (V : Type) (h : @heap V) c g rd v loc d st s,
+  wf_arr h (mkArr c (GoImpl g)) rd v -> steps_pos v ->
+  slice_args_ok (adims v) loc d st -> Forall2 (fun sk dk => 1 < dk -> 1 <= sk) st d ->
+  d <> [] -> Forall (fun x => 0 < x) s -> s <> [] -> product s = product d ->
+  forall sl, slice (mkArr c (GoImpl g)) loc d (Some st) = Some sl -> contiguous (cm sl) = Some true ->
+  exists r g', must_reshape h sl s = Some (h, r) /\ im r = GoImpl g' /\ gbuf g' = gbuf g /\
+    wf_arr h r s (idview s) /\
+    forall i, valid_idx s i ->
+      get h r i = get h (mkArr c (GoImpl g)) (vadd loc (vmul (unravel d (ravel s i)) st)).
+Proof. exact (@slice_reshape_denotes). Qed.
+Theorem C02_wrapper_output_row : forall (V : Type) (h : @heap V) c g N K T i k,
+  wf_arr h (mkArr c (GoImpl g)) [N; K; T] (idview [N; K; T]) ->
+  0 <= i < N -> 0 <= k < K -> 0 < T ->
+  forall sl, slice (mkArr c (GoImpl g)) [i; k; 0] [1; 1; T] (Some [1; 1; 1]) = Some sl ->
+  contiguous (cm sl) = Some true ->
+  exists r, must_reshape h sl [T] = Some (h, r) /\
+    forall t, 0 <= t < T -> get h r [t] = impl_read h (GoImpl g) ((i * K + k) * T + t).
+Proof. exact (@wrapper_output_row). Qed.
+Print Assumptions C02_slice_reshape_denotes.
 
 (** NOT proved (C02_arrayops_partial): ApplyFunc1 / Scale / AddTo fast path = index loop.  The
     model contains both paths literally; their agreement with the row-major abstract
